@@ -248,10 +248,19 @@ macro_rules! float_conv {
             /// representable value.
             #[inline(always)]
             pub fn $from(x: $ty) -> Self {
-                // When x is positive: 1.0 - 0.5 =  0.5
-                // When x is negative: 0.0 - 0.5 = -0.5
-                let frac = (x.is_sign_positive() as u8 as $ty) - 0.5;
-                Self((x * Self::ONE.0 as $ty + frac) as _)
+                let v = x * Self::ONE.0 as $ty;
+                // Truncate toward zero (saturating) and round on the remainder:
+                // `v - t` is exact, so comparing it with 0.5 cannot double-round
+                // the way `v + 0.5` does for values just below one half.
+                let t = Self(v as _).0;
+                let r = v - t as $ty;
+                Self(if r >= 0.5 {
+                    t.saturating_add(1)
+                } else if r <= -0.5 {
+                    t.saturating_sub(1)
+                } else {
+                    t
+                })
             }
 
             #[doc = concat!("Returns the value as an ", stringify!($ty), ".")]
